@@ -1,6 +1,7 @@
 /-
   Props/C13 — GNU symbol-version queries resolve to the right requirement / definition.
 -/
+import ElfVerif.Lemmas.Accessors
 import ElfVerif.Props.C09
 import ElfVerif.Props.C16
 import ElfVerif.Lemmas.SymVerComplete
@@ -90,8 +91,7 @@ theorem get_requirement_spec (t : SymbolVersionTable) (i : Nat) (r : SymbolRequi
       simp only [hv, Out.bind] at h
       obtain ⟨vn, vna, h1, h2, h3, h4, h5, h6⟩ := req_loop_spec strs verNdx _ it r h
       refine ⟨verNdx, vn, vna, strs, it, hn, rfl, ?_, h2, h3, h4, h5, h6⟩
-      rw [h1]; unfold VersionIndex.index
-      rw [show Abi.VER_NDX_VERSION = 2 ^ 15 - 1 from rfl, Nat.and_two_pow_sub_one_eq_mod]
+      rw [h1]; exact VersionIndex.index_eq verNdx
 
 /-- **A definition returned for symbol `i` comes from a Verdef record with
     `vd_ndx = versym[i] & 0x7fff`**; its names iterator is that record's aux chain. -/
@@ -231,9 +231,7 @@ theorem get_requirement_complete (t : SymbolVersionTable) (i verNdx : Nat) (strs
         (strGet strs vn.vn_file).bind fun file =>
         (strGet strs vna.vna_name).bind fun name =>
         .ok (some ⟨file, name, vna.vna_hash, vna.vna_flags, VersionIndex.isHidden verNdx⟩) := by
-  have hix : VersionIndex.index verNdx = verNdx % 2 ^ 15 := by
-    unfold VersionIndex.index
-    rw [show Abi.VER_NDX_VERSION = 2 ^ 15 - 1 from rfl, Nat.and_two_pow_sub_one_eq_mod]
+  have hix : VersionIndex.index verNdx = verNdx % 2 ^ 15 := VersionIndex.index_eq verNdx
   unfold SymbolVersionTable.getRequirement
   rw [hv]
   show (t.versionIds.get i).bind _ = _
@@ -253,9 +251,7 @@ theorem get_definition_complete (t : SymbolVersionTable) (i verNdx : Nat) (strs 
     t.getDefinition i =
       .ok ((firstDef (verNdx % 2 ^ 15) recs).map fun x =>
         ⟨x.1.vd_hash, x.1.vd_flags, x.2, strs, VersionIndex.isHidden verNdx⟩) := by
-  have hix : VersionIndex.index verNdx = verNdx % 2 ^ 15 := by
-    unfold VersionIndex.index
-    rw [show Abi.VER_NDX_VERSION = 2 ^ 15 - 1 from rfl, Nat.and_two_pow_sub_one_eq_mod]
+  have hix : VersionIndex.index verNdx = verNdx % 2 ^ 15 := VersionIndex.index_eq verNdx
   unfold SymbolVersionTable.getDefinition
   rw [hv]
   show (t.versionIds.get i).bind _ = _
